@@ -43,10 +43,14 @@ class DefaultDeploymentManager(DeploymentManager):
                 self.events_map[deployment_name] = asyncio.Event()
                 self.dependency_graph[deployment_name] = set()
                 connector_type = connector_classes[deployment_config.type]
-                deployment_config = await self._inner_deploy(
-                    connector_type=connector_type,
-                    deployment_config=deployment_config,
-                )
+                try:
+                    deployment_config = await self._inner_deploy(
+                        connector_type=connector_type,
+                        deployment_config=deployment_config,
+                    )
+                except Exception:
+                    self._set_failed(deployment_name)
+                    raise
                 if deployment_config.lazy:
                     connector = FutureConnector(
                         name=deployment_name,
@@ -70,8 +74,7 @@ class DefaultDeploymentManager(DeploymentManager):
                     try:
                         await connector.deploy(deployment_config.external)
                     except Exception:
-                        self.deployments_map.pop(deployment_name)
-                        self.events_map[deployment_name].set()
+                        self._set_failed(deployment_name)
                         raise
                     if logger.isEnabledFor(logging.INFO):
                         if not deployment_config.external:
@@ -86,6 +89,14 @@ class DefaultDeploymentManager(DeploymentManager):
                     )
                 if deployment_name in self.config_map:
                     break
+
+    def _set_failed(self, deployment_name: str) -> None:
+        # The deployment does not exist: it does not keep any wrapped deployment alive,
+        # and the requests waiting for it must be woken up to fail as well
+        self.deployments_map.pop(deployment_name, None)
+        for deps in self.dependency_graph.values():
+            deps.discard(deployment_name)
+        self.events_map[deployment_name].set()
 
     async def _inner_deploy(
         self, connector_type: type[Connector], deployment_config: DeploymentConfig
